@@ -1171,7 +1171,11 @@ func (s *ScopedKeyManager) nextAddresses(ns walletdb.ReadWriteBucket,
 
 		if ma.Address().String() != diskAddr.Address().String() {
 			// The address didn't match up, so we'll manually
-			// delete it from the cache.
+			// delete it from the cache, clearing its private key
+			// first as locking the manager won't reach it anymore.
+			if a, ok := diskAddr.(*managedAddress); ok {
+				a.lock()
+			}
 			delete(
 				s.addrs,
 				addrKey(diskAddr.Address().ScriptAddress()),
@@ -2404,8 +2408,20 @@ func (s *ScopedKeyManager) MarkUsed(ns walletdb.ReadWriteBucket,
 		return maybeConvertDbError(err)
 	}
 
-	// Clear caches which might have stale entries for used addresses
+	// Clear caches which might have stale entries for used addresses. The
+	// entry leaves the cache, so locking the manager won't reach it
+	// anymore: clear its private key material now.
 	s.mtx.Lock()
+	switch addr := s.addrs[addrKey(addressID)].(type) {
+	case *managedAddress:
+		addr.lock()
+	case *scriptAddress:
+		addr.lock()
+	case *witnessScriptAddress:
+		addr.lock()
+	case *taprootScriptAddress:
+		addr.lock()
+	}
 	delete(s.addrs, addrKey(addressID))
 	s.mtx.Unlock()
 	return nil
